@@ -4,7 +4,10 @@
    (1203-1295); commonroad/scenario/lanelet.py: add_dynamic_obstacle_to_lanelet /
    add_static_obstacle_to_lanelet (993-1010); the reader-side assignment of
    common/reader/file_reader_xml.py:1154-1296 (file_reader_protobuf.py:594-665, 853-912 is the same
-   code).  The model describes the repaired code (fix commits of branch fix-g4).
+   code).  The model describes the repaired code (the four "fix:" commits of branch fix-r2-c07: a static
+   obstacle is registered on the lanelets that are stored; remove_obstacle clears the lanelets of the shape
+   and of the centre assignment with discard; find_lanelet_by_shape accepts a ShapeGroup; time steps
+   before the initial time step of an obstacle are skipped like the ones after its final time step).
 
    Geometry enters only through two oracles of the world: [cin o t] = the lanelets containing the
    centre of obstacle o at time t (find_lanelet_by_position) and [sm o t] = the lanelets its occupancy
@@ -157,8 +160,8 @@ Section World.
        sreg := sreg_add_all o ids (sreg s); dreg := dreg s |}.
 
   (* assign_dynamic_obstacle_shape_at_time; returns the state and whether it raised.
-     The trajectory of a prediction starts at t0 + 1, so state_at_time_step(t) is None for t < t0 and
-     .position raises AttributeError. *)
+     The trajectory of a prediction starts at t0 + 1; a time step after the final or (repaired) before the
+     initial time step is skipped (return False). *)
   Definition assign_dyn_go (centre_only : bool) (o t : Z) (s : st) : st :=
     let c := cin W o t in
     let has_pred := match tf W o with Some _ => true | None => false end in
@@ -176,8 +179,7 @@ Section World.
     if Z.eqb t (t0 W o) then (assign_dyn_go centre_only o t s, Done)
     else match tf W o with
          | None => (s, Done)                                   (* return False *)
-         | Some f => if Z.ltb f t then (s, Done)               (* return False *)
-                     else if Z.ltb t (t0 W o) then (s, Raised AttributeError)
+         | Some f => if Z.ltb f t || Z.ltb t (t0 W o) then (s, Done)      (* return False *)
                      else (assign_dyn_go centre_only o t s, Done)
          end.
 
